@@ -1,6 +1,6 @@
 #!/bin/bash
 # sweep_benign.sh: runs every quick check (scaled by VERIF_SCALE, default 0.2) against each change under /verif/benign
 # in scratch worktrees (never /repo). Every line must end in exit=0; an exit=1 is a false alarm to investigate.
-for d in /verif/benign/C??/benign?.diff; do
+for d in /verif/benign/C??/benign?.diff /verif/benign/C??/edge?.diff; do
   VERIF_SCALE=${VERIF_SCALE:-0.2} /verif/tools/eval_benign.sh $d "$@"
 done
